@@ -28,7 +28,7 @@ from plinio.cost import CostSpec, CostFn, params_bit
 from plinio.graph.inspection import shapes_dict
 from .graph import convert, mps_layer_map
 from .nn.module import MPSModule
-from .nn.qtz import MPSType
+from .nn.qtz import MPSType, MPSBaseQtz
 
 from .quant.quantizers import PACTAct, MinMaxWeight, QuantizerBias
 
@@ -232,7 +232,13 @@ class MPS(DNAS):
         :return: the precision-assignement found by the NAS
         :rtype: Dict[str, Dict[str, Any]]
         """
+        # convert() propagates shapes with a forward pass in eval mode, which re-samples the
+        # selection coefficients (as a one-hot); exporting must not change what the search
+        # model evaluates and costs afterwards, so the sampled values are put back
+        sampled = {m: m.theta_alpha for m in self.seed.modules() if isinstance(m, MPSBaseQtz)}
         mod, _, _ = convert(self.seed, self._input_example, 'export')
+        for m, theta_alpha in sampled.items():
+            m.theta_alpha = theta_alpha
         return mod
 
     def summary(self) -> Dict[str, Dict[str, Any]]:
